@@ -155,3 +155,26 @@ package statuschecker
 //@   modifies nothing
 //@   ensures[error-means-nothing] result1 != nil ==> result0 == nil
 //@   ensures[decides-on-the-three-current-records] result1 == nil ==> result0 != nil && result0.SettledCert == aggLatestSettled && result0.PendingCert == aggLatestPending && result0.LocalCert == storedLastCert && result0.log != nil
+
+// ---- the start-up reconciliation as a whole (C13): the three records are read for this network from this store and
+// this Agglayer client, process() decides, and exactly that decision is carried out on the local record that was read;
+// a refusal of process() (or a failed read) is reported and nothing is executed.
+// assumed (A4): the package variable newInitialStatusFn holds newInitialStatus (it is replaced in tests only)
+//@ interface functype:func(context.Context,github.com/agglayer/aggkit/aggsender/types.Logger,uint32,github.com/agglayer/aggkit/aggsender/db.AggSenderStorage,github.com/agglayer/aggkit/agglayer.AggLayerClientRecoveryQuerier)(*github.com/agglayer/aggkit/aggsender/statuschecker.initialStatus,error)@statuschecker.(*certStatusChecker).checkLastCertificateFromAgglayer (ctx, log, networkID, storage, aggLayerClient)
+//@   requires log != nil && storage != nil && aggLayerClient != nil
+//@   modifies nothing
+//@   ensures result1 != nil ==> result0 == nil
+//@   ensures result1 == nil ==> result0 != nil && result0.SettledCert == aggLatestSettled && result0.PendingCert == aggLatestPending && result0.LocalCert == storedLastCert && result0.log != nil
+//@ func (c *certStatusChecker) checkLastCertificateFromAgglayer
+//@   props C13
+//@   requires c != nil && c.log != nil && c.storage != nil && c.agglayerClient != nil
+// domain of the three records (as for process(): the five declared statuses, heights below the maximum, an id determines
+// its height - A8; metadata words are byte strings)
+//@   requires storedLastCert != nil ==> storedLastCert.Height < 18446744073709551615 && 0 <= storedLastCert.Status && storedLastCert.Status <= 4
+//@   requires aggLatestPending != nil ==> 0 <= aggLatestPending.Status && aggLatestPending.Status <= 4 && forall(i, 0, 32, 0 <= hb(aggLatestPending.Metadata)[i] && hb(aggLatestPending.Metadata)[i] <= 255)
+//@   requires aggLatestSettled != nil ==> 0 <= aggLatestSettled.Status && aggLatestSettled.Status <= 4 && forall(i, 0, 32, 0 <= hb(aggLatestSettled.Metadata)[i] && hb(aggLatestSettled.Metadata)[i] <= 255)
+//@   requires (storedLastCert != nil && aggLatestPending != nil && storedLastCert.CertificateID == aggLatestPending.CertificateID) ==> storedLastCert.Height == aggLatestPending.Height
+//@   requires (storedLastCert != nil && aggLatestSettled != nil && storedLastCert.CertificateID == aggLatestSettled.CertificateID) ==> storedLastCert.Height == aggLatestSettled.Height
+//@   modifies heap, storedStatus, statusWrites, savedCount, lastSaved
+//@   assert call:dyn arg1 == c.log && arg2 == c.l2OriginNetwork && arg3 == c.storage && arg4 == c.agglayerClient
+//@   assert call:executeInitialStatusAction arg0 == c && arg2 == action && arg3 == initialStatus.LocalCert && initialStatus.LocalCert == storedLastCert
